@@ -294,10 +294,10 @@ def build_jobs(ctx):
                     jobs.append(j)
             if spec is None:
                 # no network argument (partition stacks, derived distance / walk tables)
-                for _ in range(4 if q else 12):
+                for _ in range(4 if q else 8):
                     for p in (rng.sample(perms[4], 6) if q else perms[4]):
                         add(4, p, "model-perms")
-                for _ in range(12 if q else 200):
+                for _ in range(12 if q else 150):
                     n = rng.randint(5, 10)
                     add(n, _rand_perm(rng, n), "random")
                 continue
@@ -305,7 +305,7 @@ def build_jobs(ctx):
             for und in dirs:
                 share = 1.0 / len(dirs)
                 # --- n = 4: TLC-enumerated supports x TLC-enumerated renumberings
-                pool4 = und4 if und else inputs.sample(rng, dir4, int((48 if q else 700) * share))
+                pool4 = und4 if und else inputs.sample(rng, dir4, int((48 if q else 64) * share))
                 if und and len(dirs) == 2 and q:
                     pool4 = inputs.sample(rng, und4, 32)
                 for S in pool4:
@@ -313,23 +313,23 @@ def build_jobs(ctx):
                         add(4, p, "model-n4", S, uniform=rng.random() < 0.5, und=und)
                 # --- n = 5
                 if und:
-                    for S in inputs.sample(rng, und5, int((16 if q else 200) * share)):
-                        for p in rng.sample(perms[5], 3 if q else 24):
+                    for S in inputs.sample(rng, und5, int((16 if q else 40) * share)):
+                        for p in rng.sample(perms[5], 3 if q else 8):
                             add(5, p, "model-n5", S, uniform=rng.random() < 0.5, und=und)
                 else:
-                    for _ in range(int((16 if q else 200) * share)):
-                        for p in rng.sample(perms[5], 3 if q else 24):
+                    for _ in range(int((16 if q else 40) * share)):
+                        for p in rng.sample(perms[5], 3 if q else 8):
                             add(5, p, "random-n5", und=False)
                 # --- highly symmetric graphs: common weight, then random weights on the same support
                 fam = dict(sym_u) if und else dict(sym_u, **sym_d)
                 for name, S in sorted(fam.items()):
-                    for t in range(2 if q else 8):
+                    for t in range(2 if q else 4):
                         add(len(S), _rand_perm(rng, len(S)), "symmetric:" + name, S,
                             uniform=(t % 2 == 0) or spec["w"] == "bin", und=und)
                 # --- random n in 6..10
-                for _ in range(int((12 if q else 200) * share)):
+                for _ in range(int((12 if q else 40) * share)):
                     n = rng.randint(6, 10)
-                    for _ in range(2 if q else 20):
+                    for _ in range(2 if q else 4):
                         add(n, _rand_perm(rng, n), "random", und=und)
     return jobs
 
@@ -418,8 +418,8 @@ def run(ctx):
                 "prism, cube, Petersen, directed cycles) with common and random weights; seeded random n in 6..10 x "
                 "random renumberings}; weights 1..3 / k/1000 in (0,1] / signed; non-trivial = distinct judged "
                 "(measure, input, non-identity renumbering)"
-                % (nfn, "a sample of the 4096" if ctx.quick else "700 of the 4096",
-                   "4" if ctx.quick else "all", 3 if ctx.quick else 24))
+                % (nfn, "48 of the 4096" if ctx.quick else "64 of the 4096",
+                   "3" if ctx.quick else "all", 3 if ctx.quick else 8))
     k = next((i for i, j in enumerate(jobs) if j["src"].startswith("symmetric")), 0)
     ctx.add_sample("model-input", dict(job=jobs[0], verdict=verdicts[0]))
     ctx.add_sample("symmetric-input", dict(job=jobs[k], verdict=verdicts[k]))
